@@ -96,7 +96,20 @@ impl EventGen for ReuseElement {
         })?;
 
         // Override 'default' attr values in the target
-        for (attr, value) in reuse_element.get_attrs() {
+        #[cfg(not(feature = "verif-hooks"))]
+        let reuse_attrs = reuse_element.get_attrs();
+        // (the checker owns the order in which a hash map hands out the attributes)
+        #[cfg(feature = "verif-hooks")]
+        let reuse_attrs = {
+            let mut attrs: Vec<(String, String)> = reuse_element.get_attrs().into_iter().collect();
+            let names = crate::verif::iteration_order(
+                "reuse_attrs",
+                attrs.iter().map(|(k, _)| k.clone()).collect(),
+            );
+            attrs.sort_by_key(|(k, _)| names.iter().position(|n| n == k));
+            attrs
+        };
+        for (attr, value) in reuse_attrs {
             match attr.as_str() {
                 // (the style is carried over below)
                 "href" | "id" | "x" | "y" | "style" => continue,
